@@ -94,6 +94,7 @@ fn work(args: &[String]) -> ExitCode {
     let mut harness_errors: Vec<String> = Vec::new();
     let mut samples: Vec<serde_json::Value> = Vec::new();
     let mut truncated_at: Option<u64> = None;
+    let mut digests: BTreeMap<String, String> = BTreeMap::new();
 
     let mut run = from;
     while run < to {
@@ -127,6 +128,9 @@ fn work(args: &[String]) -> ExitCode {
                 harness_errors.push(format!("run {run}: {e}"));
             }
         }
+        if let Some(d) = rep.digest {
+            digests.insert(run.to_string(), format!("{d:016x}"));
+        }
         if let Some(s) = rep.sample {
             if samples.len() < 6 {
                 samples.push(json!({"run": run, "case": s}));
@@ -154,6 +158,7 @@ fn work(args: &[String]) -> ExitCode {
         "inconclusive": inconclusive,
         "harness_errors": harness_errors,
         "samples": samples,
+        "digests": digests,
         "wall_s": start.elapsed().as_secs_f64(),
     });
     std::fs::write(format!("{out}.json"), serde_json::to_string(&summary).unwrap()).expect("cannot write summary");
